@@ -578,6 +578,11 @@ class mulgrid(object):
         self.gdcx, self.gdcy = None, None
         self.cntype = None # not supported
         self.permeability_angle = permeability_angle
+        # values taken by header fields that a file leaves blank:
+        self._header_defaults = {
+            '_convention': convention, '_atmosphere_type': atmos_type,
+            'atmosphere_volume': atmos_volume, 'atmosphere_connection': atmos_connection,
+            'permeability_angle': permeability_angle}
         self._block_order = None
         self._block_order_int = None
         self.read_function = read_function
@@ -1273,6 +1278,7 @@ class mulgrid(object):
         # of a geometry read earlier into the same object)
         self.gdcx, self.gdcy, self.cntype = None, None, None
         self._block_order, self._block_order_int = None, None
+        self.__dict__.update(getattr(self, '_header_defaults', {}))
         geo.read_value_line(self.__dict__, 'header')
         self.convention = self._convention
         self.atmosphere_type = self._atmosphere_type
